@@ -37,7 +37,9 @@ from .CommonMixin import CommonMixin
 #     copied into the buffer in the first place... (e.g. "G0 X1 *12 *83" will be truncated to
 #     "G0 X1" before being executed)
 
-PAT_WHITESPACE = r"[ ]*"
+# Tabs count as whitespace too: OctoPrint strips them from a line before the queuing hooks see it,
+# so a tab-indented line in a file has to be recognized the same way by the stream processor
+PAT_WHITESPACE = r"[ \t]*"
 PAT_LINE_NUMBER = r"(?:[Nn](\d+))?"
 
 PAT_CODE = (
